@@ -432,6 +432,50 @@ def join_proof(rep):
     return j1 and j2 and j3
 
 
+def array_rules(rep):
+    """AR: the join-based array rules (skip_vectorization) executed on abstract arrays with
+    join_numpy replaced by its (proved) contract term"""
+    import importlib
+    import inspect
+
+    from vt import absnp
+
+    T = absnp.T
+
+    def J(fk, pk, tgt, value_if_foreign_key_is_missing=None):
+        return T("join", fk, pk, tgt, value_if_foreign_key_is_missing)
+
+    cases = {
+        ("_gettsim.transfers.arbeitsl_geld_2.kindergelduebertrag", "kindergeld_zur_bedarfsdeckung_m"): lambda a: ("join", (a["p_id_kindergeld_empf"],), (a["p_id"],), (a["_mean_kindergeld_per_child_m"],), 0.0),
+        ("_gettsim.transfers.unterhaltsvors", "parent_alleinerz"): lambda a: ("join", (a["p_id_kindergeld_empf"],), (a["p_id"],), (a["alleinerz"],), False),
+        ("_gettsim.transfers.unterhaltsvors", "_unterhaltsvorschuss_empf_eink_above_income_threshold"): lambda a: ("join", (a["p_id_kindergeld_empf"],), (a["p_id"],), (a["_unterhaltsvorschuss_eink_above_income_threshold"],), False),
+        ("_gettsim.transfers.kindergeld", "same_fg_as_kindergeldempfänger"): lambda a: ("eq", ("join", (a["p_id_kindergeld_empf"],), (a["p_id"],), (a["fg_id"],), -1), (a["fg_id"],)),
+    }
+    for (mod, name), want in cases.items():
+        try:
+            m = importlib.import_module(mod)
+            f = inspect.unwrap(getattr(m, name))
+        except (ImportError, AttributeError) as ex:
+            rep.ob(f"AR {name} exists", "unsupported", "abstract-exec", 0, mod, "kernel-term", repr(ex))
+            continue
+        args = {a: a for a in inspect.signature(f).parameters}
+        saved = f.__globals__.get("join_numpy")
+        try:
+            f.__globals__["join_numpy"] = J
+            out = f(**{a: T(a) for a in args})
+            got = out.key() if isinstance(out, T) else repr(out)
+        except Exception as ex:  # noqa: BLE001
+            got = repr(ex)
+        finally:
+            f.__globals__["join_numpy"] = saved
+        w = want(args)
+        ok = got == w
+        rep.ob(f"AR {name}: per row, the value of the Kindergeld recipient's row (join contract J4), default if there is none", "discharged" if ok else "refuted", "abstract-exec", 0, mod, "kernel-term", f"got {got}")
+        rep.functions.add(f"{mod}.{name}")
+        if not ok:
+            rep.violation(f"array-rule:{name}", f"{name} no longer is the join of (p_id_kindergeld_empf, p_id, target, default) the contract describes: {got}", {"obligation": f"AR {name}", "got": str(got), "expected": str(w)}, False)
+
+
 def replay(path):
     from _gettsim import aggregation_numpy as an
     from _gettsim.shared import join_numpy
@@ -479,6 +523,7 @@ def run(tier="quick", seed=0, jobs=16):
         lost = "unsupported"
     abstract_group_kernels(rep)
     join_ok = join_proof(rep)
+    array_rules(rep)
     not_implemented(rep)
     precedence(rep)
     failing = bounded(rep, tier)
